@@ -16,6 +16,7 @@ import MagpyVerif.Lemmas.KernCylSegDisp
 import MagpyVerif.Lemmas.Level2Shape
 import MagpyVerif.Lemmas.KernAlgebra
 import MagpyVerif.Lemmas.KernCylinder
+import MagpyVerif.Lemmas.OctaCarrier
 namespace MagpyVerif.C05
 open MagpyVerif MagpyVerif.Level2
 variable {G V : Type}
@@ -354,5 +355,42 @@ theorem cylseg_core_linear_in_amplitude (μ : ℝ) (S : SegSpecial) (c r phi z r
 
 -- non-vacuity: a positive factor exists
 example : (0 : ℝ) < 5 := by norm_num
+
+
+/-! ### on the carrier the driver computes with (AUDIT X1)
+
+The driver evaluates the model at `M3 Int` / `V3 Int` (Model/Basic.lean, `⁻¹` = transpose — not a group);
+`collection_is_sum_of_children` is over an abstract `Group G`.  Lemmas/OctaCarrier.lean: on octahedral rotation
+matrices (`IsOct`) the `M3 Int` evaluation is the evaluation at the group `Oct`.  `specValueOp` is `specValue`
+with the bare operation classes (`specValue_eq_op`). -/
+section driverCarrier
+open MagpyVerif.Level2
+
+/-- **`collection_is_sum_of_children` on the driver's carrier**: with the integer matrix operations, what a
+sensor pixel reads from a Collection is the sum of what it reads from each child, for any nesting, whenever the
+rotation matrices of the collection's leaves and of the sensor are octahedral.  (Only additivity of the matrix
+action is used by the argument, which every integer matrix has; the statement is obtained by transfer from the
+group `Oct`, hence the hypotheses.) -/
+theorem collection_is_sum_of_children_on_driver_carrier
+    (flipX : V3 Int → V3 Int) (hf : ∀ a b, flipX (a + b) = flipX a + flipX b) (h0 : flipX 0 = 0)
+    (cs : List EntryZ) (k : SensZ) (hco : (Entry.coll cs : EntryZ).RotsOct) (hko : k.RotsOct)
+    (m : Nat) (x : V3 Int) :
+    specValueOp flipX (.coll cs) k m x = (cs.map fun c => specValueOp flipX c k m x).sum := by
+  obtain ⟨cs', rfl⟩ := exists_oct_entries cs ((Entry.rotsOct_coll cs).mp hco)
+  obtain ⟨k', rfl⟩ := exists_oct_sensor k hko
+  rw [← Entry.toM3_coll, specValue_at_Oct_eq_at_M3Int, List.map_map]
+  simp only [Function.comp_def, specValue_at_Oct_eq_at_M3Int]
+  exact collection_is_sum_of_children flipX hf h0 cs' k' m x
+
+-- non-vacuity: the nested collection and the left-handed sensor of `Level2.DriverExample` (90° rotations about z
+-- and x, integer positions) and the driver's handedness flip meet every hypothesis
+open Level2.DriverExample in
+example : (∀ a b, drvFlip (a + b) = drvFlip a + drvFlip b) ∧ drvFlip 0 = 0 ∧
+    (∀ e ∈ drvEntries, e.RotsOct) ∧ (∀ k ∈ drvSensors, k.RotsOct) := by
+  refine ⟨?_, by decide, drvEntries_rotsOct, drvSensors_rotsOct⟩
+  intro a b
+  simp only [drvFlip, V3.add_def, V3.mk.injEq, and_true]
+  omega
+end driverCarrier
 
 end MagpyVerif.C05
